@@ -24,7 +24,7 @@ func vpH_C12_loop() {
 		vpReach("end")
 		return
 	}
-	k := 1 + vpChoice("k", 3)
+	k := 1 + vpChoice("k", 3+vpTier()) // 1..3 frames (thorough: 1..4)
 	type frame struct {
 		binary, utf8ok, jsonok, parseOK, valid, verifyOK bool
 		msg                                              ClientMsg
